@@ -270,3 +270,14 @@ def main(prop, tier, seed, replay):
     print(f"{prop} {tier}: theorems={len(pr['theorems'])} proof_ok={pr['ok']} declarations={ndecl} probes={nprobes} "
           f"refused={len(refused)} probe_failures={len(probe_fail)} wall={ev['wall_s']}s")
     return rc
+
+
+if __name__ == "__main__":
+    # `python3 tools/c18_runner.py --translate-only`: regenerate lean/FcGen/Types.lean from /repo's current source
+    # (used by tools/setup.sh, so that a build never sees a table generated from another tree)
+    if "--translate-only" in sys.argv:
+        ns = []
+        ok, _ = translate(ns)
+        for n in ns:
+            print(n)
+        sys.exit(0 if ok else 1)
